@@ -227,11 +227,18 @@ pub fn run(tier: Tier) -> i32 {
         let site = format!("order/{}", s.name.split(':').next().unwrap_or(&s.name));
         let case = |sched: &str, extra: serde_json::Value| json!({"kind": "iteration-order", "subject": s.name, "source": s.src, "consts": format!("{:?}", s.consts), "register": s.register, "schedule": sched, "extra": extra});
         // default schedule, twice: the harness must own every source of nondeterminism
+        // (5 runs: a map that escaped the hook - std's HashMap named by its full path - is seeded
+        // differently by every `RandomState::new()`, so each further run halves the chance that a
+        // two-entry map happens to iterate in the same order again)
         let (base, log) = observe(s, vec![]);
-        let (base2, log2) = observe(s, vec![]);
-        runs.fetch_add(2, Ordering::Relaxed);
-        transitions.fetch_add(2 * log.len() as u64, Ordering::Relaxed);
-        if base != base2 || log != log2 {
+        let mut reproducible = true;
+        for _ in 0..4 {
+            let (base2, log2) = observe(s, vec![]);
+            reproducible &= base == base2 && log == log2;
+        }
+        runs.fetch_add(5, Ordering::Relaxed);
+        transitions.fetch_add(5 * log.len() as u64, Ordering::Relaxed);
+        if !reproducible {
             coll.push(Violation::new("C06", site.clone(), "default-schedule-not-reproducible", s.name.clone(), case("[]", json!(null)), "two runs with all-default iteration orders differ: some nondeterminism is not owned by the harness (or by the code)"));
             return;
         }
@@ -323,7 +330,7 @@ pub fn run(tier: Tier) -> i32 {
             "transitions": transitions.load(Ordering::Relaxed),
             "traces_validated_against_impl": runs.load(Ordering::Relaxed),
             "samples": per_subject.iter().take(4).map(|(k, v)| json!({"subject": k, "search": v})).collect::<Vec<_>>(),
-            "explanation": "states = (subject, schedule) executions of the real check + compile with every HashMap/HashSet iteration order under harness control (hook H2); a schedule assigns a permutation to one (bound 1) or two (bound 2) choice points, all others iterate in insertion order; every permutation of <= 4 entries (thorough: 5), reversal + rotations + one more beyond; each run is checked to meet the choice point it deviates at; the default schedule is run twice and must reproduce exactly",
+            "explanation": "states = (subject, schedule) executions of the real check + compile with every HashMap/HashSet iteration order under harness control (hook H2); a schedule assigns a permutation to one (bound 1) or two (bound 2) choice points, all others iterate in insertion order; every permutation of <= 4 entries (thorough: 5), reversal + rotations + one more beyond; each run is checked to meet the choice point it deviates at; the default schedule is run five times and must reproduce exactly (this is what catches a map that is not under the hook's control)",
             "subjects": subs.len(),
             "choice_points_total": points_total.load(Ordering::Relaxed),
             "choice_points_with_capped_permutation_set": capped_points.load(Ordering::Relaxed),
